@@ -290,6 +290,133 @@ func genSet(r *rand.Rand, emit func(core.Case), n int) {
 	}
 }
 
+// sets whose total sits in [Max/2, Max]: validators join, leave and are swapped near the limit
+// (the penalty of a newcomer is computed from a total of up to 2*Max: the no-overflow clause).
+func nearLimitSet(r *rand.Rand, pool []string) ([]pv, map[string]int64) {
+	n := 1 + r.Intn(4)
+	target := maxTotal/2 + r.Int63n(maxTotal/2-1000)
+	if r.Intn(4) == 0 {
+		target = maxTotal - int64(r.Intn(2000))
+	}
+	members := map[string]int64{}
+	var l []pv
+	rest := target
+	for k, i := range r.Perm(len(pool))[:n] {
+		p := rest
+		if k < n-1 {
+			p = 1 + r.Int63n(rest/2+1)
+			if r.Intn(3) == 0 {
+				p = int64(1 + r.Intn(1000))
+			}
+		}
+		if p <= 0 {
+			p = 1
+		}
+		rest -= p
+		if rest <= 0 {
+			rest = 1
+		}
+		l = append(l, pv{addr: pool[i], power: p})
+		members[pool[i]] = p
+	}
+	return l, members
+}
+
+func nearLimitBatch(r *rand.Rand, pool []string, members map[string]int64) []pv {
+	var in, outl []string
+	var tot int64
+	for _, a := range pool {
+		if p, ok := members[a]; ok {
+			in = append(in, a)
+			tot += p
+		} else {
+			outl = append(outl, a)
+		}
+	}
+	room := maxTotal - tot
+	var b []pv
+	if len(outl) == 0 {
+		return nil
+	}
+	na := outl[r.Intn(len(outl))]
+	np := int64(1 + r.Intn(100))
+	if room > 1 && r.Intn(2) == 0 {
+		np = 1 + r.Int63n(room)
+	}
+	switch r.Intn(5) {
+	case 0, 1: // plain join
+		b = append(b, pv{addr: na, power: np})
+	case 2: // join while the biggest member leaves (P before removals up to ~2*Max)
+		big := in[0]
+		for _, a := range in {
+			if members[a] > members[big] {
+				big = a
+			}
+		}
+		if len(in) > 1 || true {
+			b = append(b, pv{addr: big, power: 0}, pv{addr: na, power: 1 + r.Int63n(members[big]+room)})
+		}
+	case 3: // join + shrink somebody so that the batch fits
+		a := in[r.Intn(len(in))]
+		np2 := 1 + r.Int63n(members[a])
+		b = append(b, pv{addr: a, power: np2}, pv{addr: na, power: 1 + r.Int63n(members[a]-np2+room+1)})
+	case 4: // two joins
+		b = append(b, pv{addr: na, power: np})
+		if len(outl) > 1 {
+			for _, o := range outl {
+				if o != na {
+					b = append(b, pv{addr: o, power: int64(1 + r.Intn(50))})
+					break
+				}
+			}
+		}
+	}
+	batchHist["near-limit"]++
+	return b
+}
+
+func genNearLimit(r *rand.Rand, emit func(core.Case), n int) {
+	for c := 0; c < n; c++ {
+		if c%2 == 0 {
+			pool := keyAddrs[:8]
+			l, members := nearLimitSet(r, pool)
+			ops := []string{"new v=" + fmtBatch(l)}
+			for s := 0; s < 3+r.Intn(6); s++ {
+				b := nearLimitBatch(r, pool, members)
+				if r.Intn(4) == 0 {
+					b, _ = genBatch(r, pool, members)
+				}
+				op := "upd ch=" + fmtBatch(b)
+				if len(b) > 1 {
+					op += " alt=" + fmtBatch(permuted(r, b))
+				}
+				ops = append(ops, op, fmt.Sprintf("incr n=%d", 1+r.Intn(3)))
+				applyHint(members, b)
+			}
+			emit(core.Case{Kind: "near-limit-set", Ops: ops})
+		} else {
+			pool := keyAddrs
+			l, members := nearLimitSet(r, pool)
+			ih := int64(1 + r.Intn(50))
+			ops := []string{fmt.Sprintf("genesis ih=%d v=%s", ih, fmtBatch(l))}
+			h := ih
+			for s := 0; s < 4+r.Intn(8); s++ {
+				var b []pv
+				if r.Intn(2) == 0 {
+					b = nearLimitBatch(r, pool, members)
+				}
+				ops = append(ops, "block ch="+fmtBatch(b))
+				applyHint(members, b)
+				h++
+			}
+			for q := ih; q <= h+1; q++ {
+				ops = append(ops, fmt.Sprintf("load h=%d", q))
+			}
+			emit(core.Case{Kind: "near-limit-store", Ops: ops})
+		}
+	}
+}
+
 // long rotation windows on a fixed set: turns proportional to power.
 func genRotation(r *rand.Rand, emit func(core.Case), n int) {
 	pool := keyAddrs[:8]
@@ -416,6 +543,7 @@ func gen(r *rand.Rand, tier string, emit func(core.Case)) {
 	}
 	genSet(r, emit, n)
 	genRotation(r, emit, n/10)
+	genNearLimit(r, emit, n/2)
 	genStore(r, emit, n, tier == "thorough")
 	genGlue(r, emit, n/5)
 }
